@@ -29,6 +29,10 @@ OUTLINES = {
     "arcs_circ": ("path", "M10,20 A12,12 0 0 1 34,20 A12,12 0 0 1 10,20 Z"),
     "arcs_ell": ("path", "M10,20 A14,8 0 0 1 38,20 A14,8 0 1 1 10,20 Z"),
     "arc_rot": ("path", "M12,30 A10,6 25 0 1 30,18 L14,12 Z"),
+    "vline": ("path", "M10,5 L10,40"),
+    "vbar": ("path", "M10,5 L10.4,5 L10.4,40 L10,40 Z"),
+    "vcurve": ("path", "M10,5 C10.2,15 9.8,30 10,40"),
+    "dot": ("path", "M10,10 L10.3,10 L10.3,10.4 L10,10.4 Z"),
     "rect": ("rect", dict(x=5, y=8, width=30, height=18)),
     "rrect": ("rect", dict(x=5, y=8, width=30, height=18, rx=4, ry=6)),
     "circle": ("circle", dict(cx=20, cy=22, r=9)),
@@ -174,6 +178,25 @@ def verify(d1, d2, aff, tol):
     lin = (m[0], m[1], m[2], m[3], 0.0, 0.0)
     eps = tol + 1e-9
     ncmd = len(r1)
+    # reading 1: absolute coordinates, command for command, each within the tolerance.  Either reading suffices.
+    has_arc = any(x[2] is not None for x in r1)
+    if not has_arc:
+        ok_abs = True
+        for s_a, s_b in zip(S1, S2):
+            pa = [s_a["start"]] + [p for seg in s_a["segs"] for p in seg[2:]]
+            pb = [s_b["start"]] + [p for seg in s_b["segs"] for p in seg[2:]]
+            if len(pa) != len(pb):
+                ok_abs = False
+                break
+            for p, q in zip(pa, pb):
+                img = A.apply(m, p)
+                if abs(img[0] - q[0]) > eps or abs(img[1] - q[1]) > eps:
+                    ok_abs = False
+                    break
+            if not ok_abs:
+                break
+        if ok_abs:
+            return None
     for (l1, v1, a1), (l2, v2, a2) in zip(r1, r2):
         for p, q in zip(v1, v2):
             img = A.apply(m if l1 == "M" else lin, p)
@@ -204,7 +227,11 @@ def judge(s1, d1, s2, d2, tol, expect):
     try:
         aff = affine_between(s1, s2, tol)
     except Exception as e:  # noqa
-        return "raised:" + type(e).__name__, f"affine_between raised {type(e).__name__}: {e}"
+        # the statement constrains reported transforms; an exception reports nothing (recorded, not judged) -
+        # except where a result is guaranteed
+        if expect in ("identity", "found"):
+            return "raised:" + type(e).__name__, f"affine_between raised {type(e).__name__}: {e} although a transform is guaranteed ({expect})"
+        return "raised:" + type(e).__name__, None
     if aff is None:
         if expect in ("identity", "found"):
             return "none", f"no transform reported although one is guaranteed ({expect})"
@@ -257,6 +284,14 @@ def evaluate(case):
                         k += 1
                         if k >= 2:
                             break
+    elif case["fam"] == "prefix":
+        # one outline is a strict prefix of the other (same contour plus a hole / the stroke continued)
+        base = R1_abs(d1)
+        if base is not None:
+            extras = [" M12,12 L20,12 L16,20 Z", " L3,3", " M0,0 L1,1", " Z" if not base.rstrip().endswith("Z") else " M5,5 Z"]
+            for ex in extras:
+                for tol in TOLS:
+                    items.append(("prefix", base + ex, tol, "any", "prefix"))
     elif case["fam"] == "unrelated":
         for other in OUTLINES:
             if other == name:
@@ -267,7 +302,11 @@ def evaluate(case):
     for kind, d2, tol, exp, tag in items:
         n += 1
         s2 = SVGPath(d=d2)
-        o, why = judge(s1, d1, s2, d2, tol, exp)
+        if tag == "prefix" and n % 2:
+            # longer outline first
+            o, why = judge(s2, d2, SVGPath(d=d1) if OUTLINES[name][0] == "path" else s1, d1, tol, exp)
+        else:
+            o, why = judge(s1, d1, s2, d2, tol, exp)
         outs[f"{tag.rstrip('0123456789.')}/{o}"] += 1
         if o == "reported":
             nts.add(core.h64(repr((name, d2, tol))))
@@ -322,6 +361,7 @@ def cases(tier, seed):
             yield {"fam": "T", "name": name, "lo": lo, "hi": min(nt, lo + 12), "tier": tier}
         yield {"fam": "same", "name": name, "tier": tier}
         yield {"fam": "unrelated", "name": name, "tier": tier}
+        yield {"fam": "prefix", "name": name, "tier": tier}
 
 
 def run(run):
@@ -333,7 +373,7 @@ def run(run):
         "every vector within tolerance; arcs as point sets; absolute drift ceiling); identical shapes give the identity; pure translations are found. Non-trivial = pairs for which a transform "
         "was reported (distinct)."
     )
-    run.assumptions = ["'command for command, within the tolerance' is read on the relative command form (the weaker reading)", "images of arcs are generated only where expressible as an arc command (similarities, mirrors, axis-aligned scaling of unrotated arcs)"]
+    run.assumptions = ["'command for command, within the tolerance' is accepted under either reading: absolute coordinates each within the tolerance, or the relative command form within the tolerance plus an absolute drift ceiling", "images of arcs are generated only where expressible as an arc command (similarities, mirrors, axis-aligned scaling of unrotated arcs)"]
     run.floor_nt = 300
     run.run_cases(MOD, cases(run.tier, run.seed), chunk=1)
 
